@@ -151,6 +151,7 @@ type Sim struct {
 	Deadline   time.Time
 	SleepBound time.Duration // a library goroutine asleep in a retry loop for this long counts as never returning (0 = never)
 	StallAfter time.Duration // run the livelock detector when nothing has quiesced for this long (0 = never)
+	SpinCPU    time.Duration // processor time the process must burn without progress before a spin is called a livelock (0 = at once)
 	Stats      Stats
 	hash       uint64
 	lastSite   Site
